@@ -23,6 +23,15 @@ def plan(ctx):
                 items.append({"kind": "join", "n": n, "m": m, "key": key, "assoc": False, "strict": True, "cap": 60.0 if tier == "quick" else 240.0})
                 items.append({"kind": "join", "n": n, "m": m, "key": key, "assoc": False, "strict": False, "cap": 60.0 if tier == "quick" else 240.0})
             items.append({"kind": "join", "n": n, "m": m, "key": key, "assoc": True, "strict": True, "cap": 60.0 if tier == "quick" else 240.0})
+            if not key.startswith("(") and (key == "u8" or tier == "thorough"):
+                # arrays that are (partly) compile-time constants: the builder folds the merge / sorting network on constant wires
+                for const in ("ab", "ab", "ab", "a", "b", "mix", "mix"):
+                    k += 1
+                    items.append({"kind": "join", "n": n, "m": m, "key": key, "assoc": k % 2 == 0, "strict": True, "const": const, "seed": seed * 1000 + k,
+                                  "cap": 60.0 if tier == "quick" else 240.0})
+                for const in ("ab", "mix"):
+                    k += 1
+                    items.append({"kind": "forjoin", "n": n, "m": m, "key": key, "const": const, "seed": seed * 1000 + k, "cap": 60.0 if tier == "quick" else 240.0})
     for n in range(1, 7 if tier == "quick" else 9):
         for bits, ebits in ((1, 1), (2, 2), (1, 3), (2, 3)) if tier == "quick" else ((1, 1), (2, 2), (3, 3), (1, 3), (2, 4)):
             items.append({"kind": "sorter", "n": n, "bits": bits, "ebits": ebits, "cap": 60.0})
@@ -43,6 +52,44 @@ def sorted_assume(kty, arr, key_of, strict):
         a, b = key_bv(kty, key_of(x)), key_bv(kty, key_of(y))
         cs.append(z3.ULT(a, b) if strict else z3.ULE(a, b))
     return cs
+
+
+def const_elems(rng, mode, which, ty, kty, n, total):
+    """which elements of array `which` ('a' / 'b') are literals: -> list of None | (Lit expr, z3 value).
+    Keys are drawn strictly ascending from a small range so that the two arrays share some of them."""
+    if mode is None or (mode in ("a", "b") and mode != which):
+        return [None] * n
+    keys = sorted(rng.sample(range(0, total + 2), n))
+    if mode == "mix":
+        keys = [3 * k + 1 for k in keys]  # room for symbolic elements below, between and above the constants
+    out = []
+    for i in range(n):
+        if mode == "mix" and rng.random() < 0.5:
+            out.append(None)
+            continue
+        if isinstance(ty, TTup):
+            es, vs = [], []
+            for j, t in enumerate(ty.elems):
+                v = keys[i] if j == 0 else (rng.random() < 0.5 if isinstance(t, TBool) else rng.choice([0, 0, 1, 7, t.max]))
+                es.append(Lit(t, v))
+                vs.append(z3.BoolVal(v) if isinstance(t, TBool) else z3.BitVecVal(v, t.bits))
+            out.append((TupLit(es), vs))
+        else:
+            out.append((Lit(ty, keys[i]), z3.BitVecVal(keys[i], ty.bits)))
+    return out
+
+
+def const_array(name, param, consts):
+    """-> (statements, array expression) : `let c<name> = [lit | param[i], ...];` or the parameter itself"""
+    if all(c is None for c in consts):
+        return [], param
+    elems = [c[0] if c is not None else Index(param, Lit(USIZE, i)) for i, c in enumerate(consts)]
+    v = Var("c" + name, param.ty)
+    return [Let(PVar(v.name), ArrLit(elems))], v
+
+
+def substitute(arr, consts):
+    return [c[1] if c is not None else x for x, c in zip(arr, consts)]
 
 
 # ---------------------------------------------------------------- for-join loops
@@ -79,21 +126,26 @@ def forjoin_program(item):
     if rng.random() < 0.5:
         body.append(ExprStmt(If(Bin(">", Cast(q0, U16), Cast(p0, U16)), Block([Assign("acc", U16, [], Lit(U16, 1), "^")], None), None)))
     rng.shuffle(body)
-    stmts.append(ForJoin(pat, a, b, body))
+    ca = const_elems(rng, item.get("const"), "a", ta, kty, n, n + m)
+    cb = const_elems(rng, item.get("const"), "b", tb, kty, m, n + m)
+    sa, ea = const_array("a", a, ca)
+    sb, eb = const_array("b", b, cb)
+    stmts += sa + sb
+    stmts.append(ForJoin(pat, ea, eb, body))
     ret = TupLit([acc, cnt, last, sm])
     prog = Program([FnDef("main", [("a", a.ty, False), ("b", b.ty, False)], ret.ty, Block(stmts, ret), pub=True)])
-    return prog, kty
+    return prog, kty, ca, cb
 
 
 def work_forjoin(item, drv, st, out):
-    prog, kty = forjoin_program(item)
+    prog, kty, ca, cb = forjoin_program(item)
     rng = random.Random(item["seed"])
 
     def extra(args):
-        return sorted_assume(kty, args[0], lambda x: x[0], True) + sorted_assume(kty, args[1], lambda x: x[0], True)
+        return sorted_assume(kty, substitute(args[0], ca), lambda x: x[0], True) + sorted_assume(kty, substitute(args[1], cb), lambda x: x[0], True)
     res = tvcore.analyze(drv, prog, dedup=True, cap=item["cap"], stats=st, rng=rng, vectors=2, extra_assume=extra)
     out["programs"] += 1
-    label = "for-join n=%d m=%d key=%s" % (item["n"], item["m"], item["key"])
+    label = "for-join n=%d m=%d key=%s%s" % (item["n"], item["m"], item["key"], " const=%s" % item["const"] if item.get("const") else "")
     if res["status"] != "ok":
         out["violations"].append({"key": "forjoin-%s" % res["status"], "text": "%s: %s %s" % (label, res["status"], res.get("errors") or res.get("panic") or [f.as_dict() for f in res["findings"]]),
                                   "replay": {"source": res["src"]}})
@@ -123,9 +175,14 @@ def join_program(item):
     L = n + m - 1
     rty = TArrC(ety, L, "const { %dusize + %dusize - 1usize }" % (n, m))
     a, b = Var("a", TArr(ta, n)), Var("b", TArr(tb, m))
-    e = JoinCall(a, b, rty)
-    prog = Program([FnDef("main", [("a", a.ty, False), ("b", b.ty, False)], rty, Block([], e), pub=True)])
-    return prog, kty, ta, tb, ety, L
+    rng = random.Random(item.get("seed", 0))
+    ca = const_elems(rng, item.get("const"), "a", ta, kty, n, n + m)
+    cb = const_elems(rng, item.get("const"), "b", tb, kty, m, n + m)
+    sa, ea = const_array("a", a, ca)
+    sb, eb = const_array("b", b, cb)
+    e = JoinCall(ea, eb, rty)
+    prog = Program([FnDef("main", [("a", a.ty, False), ("b", b.ty, False)], rty, Block(sa + sb, e), pub=True)])
+    return prog, kty, ta, tb, ety, L, ca, cb
 
 
 def join_spec(item, kty, ta, tb, ety, a, b, out_elems):
@@ -164,9 +221,9 @@ def join_spec(item, kty, ta, tb, ety, a, b, out_elems):
 
 
 def work_join(item, drv, st, out):
-    prog, kty, ta, tb, ety, L = join_program(item)
+    prog, kty, ta, tb, ety, L, ca, cb = join_program(item)
     src = render(prog)
-    label = "join n=%d m=%d key=%s assoc=%s strict=%s" % (item["n"], item["m"], item["key"], item["assoc"], item["strict"])
+    label = "join n=%d m=%d key=%s assoc=%s strict=%s%s" % (item["n"], item["m"], item["key"], item["assoc"], item["strict"], " const=%s" % item["const"] if item.get("const") else "")
     r = drv.compile(src, dedup=True)
     out["programs"] += 1
     rep = {"source": src, "label": label}
@@ -185,7 +242,7 @@ def work_join(item, drv, st, out):
         tvcore.validate_encoder(drv, cid, circ, inputs, outs, random.Random(1), 2)
         has, rec, vbits = enc.split_panic(outs)
         args, assume = ref.param_values(prog, "main", inputs.bv)
-        a, b = args
+        a, b = substitute(args[0], ca), substitute(args[1], cb)
         key_of = (lambda x: x[0]) if item["assoc"] else (lambda x: x)
         assume = assume + sorted_assume(kty, a, key_of, item["strict"]) + sorted_assume(kty, b, key_of, item["strict"])
         out_val = ref.decode(TArr(ety, L), enc.bits_to_bv(vbits))
@@ -195,6 +252,8 @@ def work_join(item, drv, st, out):
         # precondition must be satisfiable (vacuity guard)
         v0, _, _, _ = solve.decide(assume, 20.0, st)
         if v0 != "sat":
+            if item.get("const") == "mix":
+                return  # no symbolic element fits between the chosen constants: nothing to check for this draw
             out["errors"].append("join precondition unsatisfiable?! %s" % label)
         bad = z3.Or(*[z3.Not(f) for _, f in spec])
         verdict, model, _, _ = solve.decide(assume + [bad], item["cap"], st)
